@@ -64,6 +64,7 @@ def run(F, rep):
     _run(F, rep)
     if getattr(F, "cfg", "dev") == "dev":
         vint_rule(F, rep, "C03-VINT")
+    zz_rule(F, rep, "C03-ZZ")
 
 
 def cursor_rule(F, rep, rule="C03-BATCH"):
@@ -530,3 +531,42 @@ def vint_rule(F, rep, rule, want=("rt", "fmt", "trunc")):
                detail=("undecidable construct: %s" % und) if und else ("%d values evaluated" % r["n"] if not bad else "%d failures, e.g. %s" % (len(bad), "; ".join(bad[:3]))),
                site=site, key="%s | collection varint %s" % (rule, kind))
     rep.stat("collection_varint_points", r["n"])
+
+
+def zz_rule(F, rep, rule):
+    """zigzag_decode(zigzag_encode(x, p), p) = x, evaluated on the IR of both functions for every pair of a value set that holds
+    the small values, the neighbours of p and 2p for realistic predictions (segment lengths, group ids) and the 32-bit extremes.
+    In the dev configuration an overflow assert is a panic and is reported; in the release configuration the arithmetic wraps
+    and a wrong value is reported."""
+    from absint import Interp, Undecidable, Panic
+    enc, dec = F.funcs.get("ragc_common::collection::zigzag_encode"), F.funcs.get("ragc_common::collection::zigzag_decode")
+    if not rep.floor(rule, sum(1 for x in (enc, dec) if x), 2, "zigzag_encode / zigzag_decode"):
+        return
+    preds = [0, 1, 2, 3, 7, 8, 50, 60001, 60031, (1 << 31) - 1, 1 << 31, (1 << 32) - 1]
+    vals = set()
+    for p in preds:
+        for v in (0, 1, 2, 3, 4, 5, p - 2, p - 1, p, p + 1, p + 2, 2 * p - 2, 2 * p - 1, 2 * p, 2 * p + 1, 2 * p + 2, 2 * p + 3, 3 * p + 1):
+            if 0 <= v < (1 << 33):
+                vals.add(v)
+    bad, undec, n = [], None, 0
+    for p in preds:
+        for x in sorted(vals):
+            n += 1
+            try:
+                c = Interp(F).call(enc, [x, p])
+                y = Interp(F).call(dec, [c, p])
+            except Panic as e:
+                bad.append("value %d with prediction %d: panics (%s)" % (x, p, e))
+                continue
+            except Undecidable as e:
+                undec = "value %d, prediction %d: %s" % (x, p, e)
+                break
+            if y != x:
+                bad.append("value %d with prediction %d is written as %d and read back as %d" % (x, p, c, y))
+        if undec:
+            break
+    rep.ob(rule, "zigzag_decode(zigzag_encode(x, p), p) = x for every value/prediction pair of the finite domain (small values, p-2..p+2, 2p-2..2p+3, 32-bit extremes)",
+           undec is None and not bad,
+           detail=("undecidable construct: %s" % undec) if undec else ("%d pairs evaluated" % n if not bad else "%d of %d pairs fail, e.g. %s" % (len(bad), n, "; ".join(bad[:3]))),
+           site="%s:%d" % (dec.file, dec.line_lo), key="%s | zigzag round trip on the finite domain" % rule)
+    rep.stat("zigzag_pairs_evaluated", n)
